@@ -140,3 +140,24 @@ def ser_tx_rec(version, inputs, outputs, locktime):
     from spec.sighash import out_step
     return (le(version, 4) + compact_size(len(inputs)) + fold(tx_in_step, b'', inputs, len(inputs), key='tx-in')
             + compact_size(len(outputs)) + fold(out_step(ser_string), b'', outputs, len(outputs), key='tx-out') + le(locktime, 4))
+
+
+def tx_wit_step(acc, x, j):
+    """witness field of one input (BIP144): item count, then every item as var_str; an input without witness items is the single byte 00"""
+    w = x.witnesses
+    if len(w) == 0:
+        return acc + b'\x00'
+    out = acc + compact_size(len(w))
+    for item in w:
+        out = out + ser_string(item)
+    return out
+
+
+def ser_tx_segwit_rec(version, inputs, outputs, locktime):
+    """BIP144 serialisation for lists of ANY length: version, marker 00, flag 01, inputs, outputs, the witness field of every input, lock time"""
+    from pyvc.api import fold
+    from spec.sighash import out_step
+    return (le(version, 4) + b'\x00\x01' + compact_size(len(inputs)) + fold(tx_in_step, b'', inputs, len(inputs), key='tx-in')
+            + compact_size(len(outputs)) + fold(out_step(ser_string), b'', outputs, len(outputs), key='tx-out')
+            + fold(tx_wit_step, b'', inputs, len(inputs), key='tx-wit') + le(locktime, 4))
+
